@@ -427,13 +427,13 @@ func r17d(c *an.Ctx) {
 				}
 				timed := false
 				for _, st := range x.States {
-					if call, isCall := st.Chan.(*ssa.Call); isCall && an.CalleeName(&call.Call) == "time.After" {
+					if isTimerChan(st.Chan) {
 						timed = true
 					}
 				}
 				if !timed {
 					ok = false
-					why = append(why, "select without a time.After case at "+c.PosStr(x.Pos()))
+					why = append(why, "select without a timer case (time.After / Timer.C) at "+c.PosStr(x.Pos()))
 				}
 			case *ssa.Call:
 				if an.CalleeName(&x.Call) == "(*os/exec.Cmd).Wait" {
@@ -570,4 +570,25 @@ func r17f(c *an.Ctx) {
 		c.Ob("Kill|"+name, decl.Pos(), reaches(decl),
 			"Kill of %s drops the command handle and reports a terminal status without signalling the process group: a task killed while its process runs (forced destroy, cleanup) leaves the whole group alive under the executor", name)
 	}
+}
+
+// isTimerChan: v is a channel that fires after a duration: time.After(d), time.Tick(d), or the C field of a
+// *time.Timer / *time.Ticker.
+func isTimerChan(v ssa.Value) bool {
+	v = an.Strip(v)
+	if call, ok := v.(*ssa.Call); ok {
+		switch an.CalleeName(&call.Call) {
+		case "time.After", "time.Tick":
+			return true
+		}
+	}
+	if ld, ok := v.(*ssa.UnOp); ok && ld.Op == token.MUL {
+		if fa, ok := ld.X.(*ssa.FieldAddr); ok {
+			if f := an.FieldOf(fa); f != nil && f.Name() == "C" {
+				t := fa.X.Type().String()
+				return strings.HasSuffix(t, "time.Timer") || strings.HasSuffix(t, "time.Ticker")
+			}
+		}
+	}
+	return false
 }
